@@ -1,7 +1,7 @@
 (* Collect engine — correspondence cases for C06: what the real TopNCollector / Index.Search
    returned on an input, checked against the executable model (Collect/TopN.v) and the spec. *)
 From Coq Require Import ZArith List Bool Uint63.
-From Verif Require Import Common.Bytes Collect.TopN.
+From Verif Require Import Common.Bytes Collect.TopN Collect.TopNAliasModel.
 Import ListNotations.
 Local Open Scope Z_scope.
 
@@ -63,7 +63,10 @@ Record probe := { p_size : nat; p_req : preq; p_obs : observed }.
 
 Inductive case :=
 | CColl (so : sort_order) (size skip : nat) (after : option after_doc) (ms : list cmatch) (obs : observed)
-| CApi (so : sort_order) (ms : list amatch) (probes : list probe).
+| CApi (so : sort_order) (ms : list amatch) (probes : list probe)
+(* an IndexAlias (possibly nested) over several member indexes: [children] = each member's own
+   Size=all listing (HitNumber order, numbered by that member); [probes] were sent to the alias *)
+| CAlias (so : sort_order) (children : list (list amatch)) (probes : list probe).
 
 (* the values sent as SearchAfter/SearchBefore are those of the i-th hit of the sorted listing *)
 Definition anchor_ok (so : sort_order) (sorted : list dmatch) (i : nat) (a : after_doc) : bool :=
@@ -97,6 +100,91 @@ Definition check_probe (so : sort_order) (ms : list rmatch) (p : probe) : bool :
       (o_total o =? spec_total ms) && (o_max o =? spec_max_score ms)
   end.
 
+(* ---------------------------------------------------------------- alias over several indexes
+
+   The statement for an alias is the same as for one index holding all the documents: a page is
+   the requested slice of ALL matches (of every member) in the requested order.  Hit numbers are
+   member-local, so "ties broken by natural index order" says nothing about two matches of
+   different members with equal keys: which of them comes first is not judged.  What is judged
+   for every page, ties or not ([page_ok]): it has as many hits as the slice, no id twice, and its
+   k-th hit carries exactly the sort keys of the k-th element of the slice (any two orderings of the
+   matches that respect the keys have the same keys at every position).  When the keys separate all
+   matches this says the page IS the slice, which is then also compared id by id. *)
+
+Fixpoint find_id (id : bytes) (l : list dmatch) : option dmatch :=
+  match l with
+  | [] => None
+  | d :: l' => if beqb (did d) id then Some d else find_id id l'
+  end.
+
+Fixpoint nodup_ids (l : list bytes) : bool :=
+  match l with
+  | [] => true
+  | x :: l' => negb (existsb (beqb x) l') && nodup_ids l'
+  end.
+
+Fixpoint page_keys_ok (so : sort_order) (all : list dmatch) (expected : list dmatch) (ids : list bytes) : bool :=
+  match expected, ids with
+  | [], [] => true
+  | e :: es, i :: is' =>
+      match find_id i all with
+      | Some m => cmp_keys so (score e) (score m) (keys e) (keys m) =? 0
+      | None => false
+      end && page_keys_ok so all es is'
+  | _, _ => false
+  end.
+
+Definition page_ok (so : sort_order) (all expected : list dmatch) (ids : list bytes) : bool :=
+  nodup_ids ids && page_keys_ok so all expected ids.
+
+(* SPEC with a search-before sentinel: the last [size] of the sorted matches that sort strictly
+   before it *)
+Definition passes_before (so : sort_order) (a : after_doc) (d : dmatch) : bool :=
+  compare so d {| hit := hit d; did := []; score := sa_score a; keys := sa_keys a |} <? 0.
+Definition last_n (n : nat) (l : list dmatch) : list dmatch := skipn (length l - n) l.
+Definition before_of_sorted (so : sort_order) (size : nat) (a : after_doc) (sorted : list dmatch) : list dmatch :=
+  last_n size (filter (passes_before so a) sorted).
+Definition after_of_sorted (so : sort_order) (size : nat) (a : after_doc) (sorted : list dmatch) : list dmatch :=
+  firstn size (filter (passes_after so a) sorted).
+
+(* what the statement says the alias must return for a probe; [sorted] = all matches sorted *)
+Definition alias_expected (so : sort_order) (sorted : list dmatch) (size : nat) (q : preq) : list dmatch :=
+  match q with
+  | QFrom from => firstn size (skipn from sorted)
+  | QAfter _ a => after_of_sorted so size a sorted
+  | QBefore _ a => before_of_sorted so size a sorted
+  end.
+
+(* ... and by position, when the keys separate all matches *)
+Definition alias_expected_by_position (sorted : list dmatch) (size : nat) (q : preq) : list dmatch :=
+  match q with
+  | QFrom from => firstn size (skipn from sorted)
+  | QAfter i _ => firstn size (skipn (S i) sorted)
+  | QBefore i _ => skipn (i - size) (firstn i sorted)
+  end.
+
+Definition page_req_of (q : preq) : page_req :=
+  match q with QFrom from => PFrom from | QAfter _ a => PAfter a | QBefore _ a => PBefore a end.
+
+(* [cs] = the members' streams.  The executable model of the alias (TopNAliasModel.alias_search, the
+   flat alias over all members — what a nested alias tree reduces to) is compared when the keys
+   separate all matches; with cross-member ties its order is one of several Go's sort may produce *)
+Definition check_alias_probe (so : sort_order) (cs : list (list rmatch)) (sorted : list dmatch) (total_order : bool)
+  (n_total max_sc : Z) (p : probe) : bool :=
+  let o := p_obs p in
+  (if total_order then agrees (alias_search so (p_size p) (page_req_of (p_req p)) cs) o else true) &&
+  page_ok so sorted (alias_expected so sorted (p_size p) (p_req p)) (o_ids o) &&
+  match p_req p with
+  | QFrom _ => true
+  | QAfter i a | QBefore i a => anchor_ok so sorted i a
+  end &&
+  (if total_order
+   then ids_eqb (ids_of (alias_expected_by_position sorted (p_size p) (p_req p))) (o_ids o)
+   else true) &&
+  (o_total o =? n_total) && (o_max o =? max_sc).
+
+Definition alias_matches (children : list (list amatch)) : list rmatch := map of_amatch (concat children).
+
 Definition check (c : case) : bool :=
   match c with
   | CColl so size skip after cms o =>
@@ -111,6 +199,15 @@ Definition check (c : case) : bool :=
       hits_are_1_to_n 0 ams &&
       let ms := map of_amatch ams in
       forallb (check_probe so ms) probes
+  | CAlias so children probes =>
+      forallb (hits_are_1_to_n 0) children &&
+      let ms := alias_matches children in
+      nodup_ids (map rid ms) &&
+      let sorted := sorted_matches so ms in
+      let total_order := adjacent_keys_differ so sorted in
+      let n_total := spec_total ms in
+      let max_sc := spec_max_score ms in
+      forallb (check_alias_probe so (map (map of_amatch) children) sorted total_order n_total max_sc) probes
   end.
 
 (* what the model expected, for replay files *)
@@ -145,4 +242,15 @@ Definition explain (c : case) : expl :=
                  | QBefore i a => {| e_model := res_view (search so (p_size p) (PBefore a) ms);
                                      e_spec := ids_of (skipn (i - p_size p) (firstn i sorted)) |}
                  end)) probes)
+  | CAlias so children probes =>
+      let ms := alias_matches children in
+      let sorted := sorted_matches so ms in
+      let total_order := adjacent_keys_differ so sorted in
+      EApi (forallb (hits_are_1_to_n 0) children && nodup_ids (map rid ms)) (ids_of sorted)
+        (map (fun p =>
+                (check_alias_probe so (map (map of_amatch) children) sorted total_order (spec_total ms) (spec_max_score ms) p,
+                 {| e_model := res_view (alias_search so (p_size p) (page_req_of (p_req p)) (map (map of_amatch) children));
+                    e_spec := ids_of (if total_order
+                                      then alias_expected_by_position sorted (p_size p) (p_req p)
+                                      else alias_expected so sorted (p_size p) (p_req p)) |})) probes)
   end.
